@@ -3,6 +3,7 @@
 //! usage: kdb-run <family-code> <casefile>
 mod codec;
 mod fam_cmp;
+mod fam_validate;
 
 use codec::Tok;
 use std::io::{BufRead, Write};
@@ -10,6 +11,7 @@ use std::io::{BufRead, Write};
 fn run_case(fam: i64, case: &[Vec<Tok>]) -> Vec<Vec<Tok>> {
     match fam {
         13 => case.iter().map(|l| fam_cmp::run_line(l)).collect(),
+        2 => case.iter().map(|l| fam_validate::run_line(l)).collect(),
         _ => vec![vec![-99]],
     }
 }
